@@ -132,7 +132,17 @@ pub fn build_node(c: &NodeCfg) -> Node {
     caps.icmpv4 = cs(c.csum[3]);
     caps.icmpv6 = cs(c.csum[4]);
     dev.checksum = caps;
-    dev.fill = c.fill;
+    // what a transmit buffer holds before the stack writes into it: zeros in half of the runs, else all ones or a
+    // pseudo-random pattern (recycled DMA buffers) - derived from the node's seed, which every scenario draws per run
+    dev.fill = if c.fill != Fill::Zero {
+        c.fill
+    } else {
+        match crate::tape::mix64(c.seed, 0xf111) % 4 {
+            0 | 1 => Fill::Zero,
+            2 => Fill::Ones,
+            _ => Fill::Garbage(c.seed ^ 0x5eed),
+        }
+    };
     dev.max_burst = c.max_burst;
     let hw = match c.medium {
         Medium::Ip => HardwareAddress::Ip,
